@@ -105,6 +105,14 @@ def single_assignments(fn: ast.AST) -> Dict[str, List[ast.AST]]:
             for t in n.targets:
                 if isinstance(t, ast.Name):
                     out.setdefault(t.id, []).append(n.value)
+                elif isinstance(t, (ast.Tuple, ast.List)) and all(isinstance(x, ast.Name) for x in t.elts):
+                    # a, b, c = X   ->   a = X[0], b = X[1], c = X[2]
+                    for i, x in enumerate(t.elts):
+                        if isinstance(n.value, (ast.Tuple, ast.List)) and len(n.value.elts) == len(t.elts):
+                            out.setdefault(x.id, []).append(n.value.elts[i])
+                        else:
+                            sub = ast.Subscript(value=n.value, slice=ast.Constant(value=i), ctx=ast.Load())
+                            out.setdefault(x.id, []).append(ast.copy_location(sub, n.value))
         elif isinstance(n, ast.AnnAssign) and isinstance(n.target, ast.Name) and n.value is not None:
             out.setdefault(n.target.id, []).append(n.value)
     return out
@@ -261,8 +269,177 @@ def stale_loop_reads(fn: ast.AST, qual: str, loop: ast.For) -> List[tuple]:
             return [fact]
         flow = Flow(cfg, ["out"], tr)
         seen = set()
+        # correlated branches: `if C: v = ...` ... `if C: use(v)` - the read is reached only when the same condition bound v earlier in
+        # this iteration (the condition's own variables are not rebound in the loop body)
+        binders = []
+        for b in loop.body:
+            for g in ast.walk(b):
+                if isinstance(g, ast.If) and any(isinstance(x, ast.Name) and x.id == var and isinstance(x.ctx, ast.Store) for st_ in g.body for x in ast.walk(st_)
+                                                 if not isinstance(st_, (ast.If, ast.For, ast.While, ast.Try))):
+                    tv = {x.id for x in ast.walk(g.test) if isinstance(x, ast.Name)}
+                    if not tv & (assigned - own_targets):
+                        binders.append(g)
         for nd in hits:
-            if nd.id not in seen:
-                seen.add(nd.id)
+            if nd.id in seen:
+                continue
+            seen.add(nd.id)
+            correlated = False
+            for g in binders:
+                for b in loop.body:
+                    for h in ast.walk(b):
+                        if isinstance(h, ast.If) and h is not g and ast.dump(h.test) == ast.dump(g.test) and h.lineno > g.lineno and \
+                                nd.ast is not None and any(x is nd.ast for st_ in h.body for x in ast.walk(st_)):
+                            correlated = True
+            if not correlated:
                 out.append((var, nd, flow.witness(nd.id, "stale")))
     return out
+
+
+def deref(fn: ast.AST, e: ast.AST, depth: int = 3) -> ast.AST:
+    """Look through a named intermediate: a local Name that *fn* assigns exactly once (plain assignment) stands for its value."""
+    while depth > 0 and isinstance(e, ast.Name):
+        vals = []
+        other = 0
+        for n in ast.walk(fn):
+            if isinstance(n, ast.Assign) and len(n.targets) == 1 and isinstance(n.targets[0], ast.Name) and n.targets[0].id == e.id:
+                if not (isinstance(n.value, ast.Constant) and n.value.value is None):      # `x = None` sentinel initialisation
+                    vals.append(n.value)
+            elif isinstance(n, ast.Name) and n.id == e.id and isinstance(n.ctx, ast.Store):
+                other += 1
+        nstores = len([n for n in ast.walk(fn) if isinstance(n, ast.Name) and n.id == e.id and isinstance(n.ctx, ast.Store)])
+        n_none = len([n for n in ast.walk(fn) if isinstance(n, ast.Assign) and len(n.targets) == 1 and isinstance(n.targets[0], ast.Name)
+                      and n.targets[0].id == e.id and isinstance(n.value, ast.Constant) and n.value.value is None])
+        if len(vals) != 1 or nstores != 1 + n_none:
+            break
+        if any(isinstance(x, ast.Name) and x.id == e.id for x in ast.walk(vals[0])):
+            break                       # x = x * 1.0: a coercion of the same variable, not a named intermediate
+        if isinstance(fn, (ast.FunctionDef, ast.AsyncFunctionDef)) and e.id in {a.arg for a in fn.args.posonlyargs + fn.args.args + fn.args.kwonlyargs}:
+            break
+        e = vals[0]
+        depth -= 1
+    return e
+
+
+def table_row_of(fn: ast.AST, e: ast.AST) -> Optional[tuple]:
+    """(table, key) when *e* denotes one row of a dict-of-dicts attribute table: ``T[k]``, ``T.setdefault(k, {})``, or a local
+    alias of one of these.  T is returned as dotted text ('self.results'), k as an AST."""
+    e = deref(fn, e)
+    if isinstance(e, ast.Subscript):
+        t = e.value
+        d = _dotted(t)
+        if d:
+            return d, e.slice
+    if isinstance(e, ast.Call) and isinstance(e.func, ast.Attribute) and e.func.attr == "setdefault" and len(e.args) == 2 \
+            and isinstance(e.args[1], ast.Dict) and not e.args[1].keys:
+        d = _dotted(e.func.value)
+        if d:
+            return d, e.args[0]
+    return None
+
+
+def _dotted(node: ast.AST) -> Optional[str]:
+    parts = []
+    while isinstance(node, ast.Attribute):
+        parts.append(node.attr)
+        node = node.value
+    if isinstance(node, ast.Name):
+        parts.append(node.id)
+        return ".".join(reversed(parts))
+    return None
+
+
+def row_aliases(fn: ast.AST, table: str) -> Set[str]:
+    """Local names every assignment of which binds one row of the attribute table *table* (``T[k]`` / ``T.setdefault(k, {})``)."""
+    cands: Dict[str, List[ast.AST]] = {}
+    for n in ast.walk(fn):
+        if isinstance(n, ast.Assign) and len(n.targets) == 1 and isinstance(n.targets[0], ast.Name):
+            cands.setdefault(n.targets[0].id, []).append(n.value)
+    out = set()
+    for name, vals in cands.items():
+        vals = [v for v in vals if not (isinstance(v, ast.Constant) and v.value is None)]
+        if vals and all(_row(v, table) for v in vals):
+            out.add(name)
+    return out
+
+
+def _row(e: ast.AST, table: str) -> bool:
+    if isinstance(e, ast.Subscript) and _dotted(e.value) == table:
+        return True
+    return isinstance(e, ast.Call) and isinstance(e.func, ast.Attribute) and e.func.attr in ("setdefault", "get") and _dotted(e.func.value) == table
+
+
+def is_row(fn_aliases: Set[str], e: ast.AST, table: str) -> bool:
+    return (isinstance(e, ast.Name) and e.id in fn_aliases) or _row(e, table)
+
+
+def _is_path(e: ast.AST) -> bool:
+    """Name / attribute / subscript chain with simple keys: evaluating it twice yields the same object (no calls)."""
+    if isinstance(e, ast.Name):
+        return True
+    if isinstance(e, ast.Attribute):
+        return _is_path(e.value)
+    if isinstance(e, ast.Subscript):
+        return _is_path(e.value) and (isinstance(e.slice, ast.Constant) or _is_path(e.slice))
+    return False
+
+
+def expand_aliases(fn: ast.FunctionDef) -> ast.FunctionDef:
+    """A copy of *fn* in which locals that merely name a path are written out: ``row = table[k]`` ... ``row[c] += 1`` becomes
+    ``table[k][c] += 1``; ``fresh = {}; table[k] = fresh`` becomes ``table[k] = {}`` with ``fresh`` read as ``table[k]``.
+    Only locals stored exactly once are expanded.  For rules phrased over access paths (C13)."""
+    import copy as _copy
+    fn = _copy.deepcopy(fn)
+    params_ = {a.arg for a in fn.args.posonlyargs + fn.args.args + fn.args.kwonlyargs}
+    for _round in range(8):
+        stores: Dict[str, int] = {}
+        for n in ast.walk(fn):
+            if isinstance(n, ast.Name) and isinstance(n.ctx, (ast.Store, ast.Del)):
+                stores[n.id] = stores.get(n.id, 0) + 1
+            if isinstance(n, ast.arg):
+                stores[n.arg] = stores.get(n.arg, 0) + 1
+        mapping: Dict[str, ast.AST] = {}
+        drop: List[ast.AST] = []
+        assigns = [n for n in ast.walk(fn) if isinstance(n, ast.Assign) and len(n.targets) == 1]
+        for a in assigns:
+            t, v = a.targets[0], a.value
+            if isinstance(t, ast.Name) and stores.get(t.id) == 1 and t.id not in params_ and _is_path(v) and not isinstance(v, ast.Name):
+                if not any(isinstance(x, ast.Name) and x.id == t.id for x in ast.walk(v)):
+                    mapping[t.id] = v
+                    drop.append(a)
+                    break
+            # reverse alias: L = {} ; T = L
+            if isinstance(v, ast.Name) and stores.get(v.id) == 1 and v.id not in params_ and isinstance(t, (ast.Subscript, ast.Attribute)) and _is_path(t):
+                defs = [d for d in assigns if isinstance(d.targets[0], ast.Name) and d.targets[0].id == v.id]
+                if len(defs) == 1 and isinstance(defs[0].value, (ast.Dict, ast.List)) and not (defs[0].value.keys if isinstance(defs[0].value, ast.Dict) else defs[0].value.elts):
+                    a.value = defs[0].value
+                    path = _copy.deepcopy(t)
+                    for x in ast.walk(path):
+                        if hasattr(x, "ctx"):
+                            x.ctx = ast.Load()
+                    mapping[v.id] = path
+                    drop.append(defs[0])
+                    break
+        if not mapping:
+            break
+
+        class A(ast.NodeTransformer):
+            def visit_Name(self, node):
+                if node.id in mapping and isinstance(node.ctx, ast.Load):
+                    new = _copy.deepcopy(mapping[node.id])
+                    for x in ast.walk(new):
+                        if getattr(node, "_seq", None) is not None:
+                            x._seq = node._seq
+                    return ast.copy_location(new, node)
+                return node
+
+            def visit_Assign(self, node):
+                if any(node is d for d in drop):
+                    p = ast.copy_location(ast.Pass(), node)
+                    if getattr(node, "_seq", None) is not None:
+                        p._seq = node._seq
+                    return p
+                self.generic_visit(node)
+                return node
+        fn = A().visit(fn)
+    ast.fix_missing_locations(fn)
+    return fn
